@@ -48,6 +48,9 @@ pub const POOL: &[&str] = &[
     "{ $ ?> { $ + 1 } <~ 1 |> 0 } <~ $?",
     "1 < 2 && 2 < 3 ?> :yes |> :no",
     "10 20 30 ~> { $ . 1 }",
+    "$ == 5 ?> 1 |> ^~ 5",
+    "k ?> ^~ 9 |> $ + 1",
+    "$ == 5 && $? || ^~ 5",
 ];
 
 #[derive(Clone, PartialEq, Debug)]
